@@ -123,6 +123,17 @@ CLAIMED["C04"] = dict(
            "with de-duplicated renderings."),
     note=_NOTE, technique="static analysis: sibling agreement of policy dispatch, depth-automaton abstraction of skipping loops, type-table rules on MIR / ADT facts")
 
+CLAIMED["C17"] = dict(
+    level=("Static decision (choke-point / who-may-call / local dataflow) that every byte of a rendered report passes a sanitiser: the "
+           "Display and render* paths reach the renderers only through fmt_error_rendered, which writes exclusively through the "
+           "TerminalSafe fmt::Write adapter (constructed nowhere else); the unsanitised renderers (7 default / 10 with features) are "
+           "called only by each other and by the adapter's inner Display; the adapter forwards a chunk unchanged only on the `clean` "
+           "edge of the predicate and otherwise forwards the sanitiser's output; predicate and sanitiser agree on C0 / DEL / C1 with "
+           "exactly LF and TAB exempt; the miette adapter's source, messages and labels derive only from sanitised, constant or "
+           "numeric text; the three window computations use the same two lines of context. Declared not applicable and not decided: "
+           "horizontal cropping arithmetic and marker placement; panics in renderers are C01's."),
+    note=_NOTE, technique="static analysis: call-graph choke-point (who-may-call) + backward value-provenance (taint) rules on MIR, sibling constant agreement")
+
 NOT_APPLICABLE = {("C%02d" % i): _NB for i in range(1, 21) if ("C%02d" % i) not in CLAIMED}
 
 CLAIMED["C10"] = dict(
@@ -229,5 +240,16 @@ CLAIMED["C04"] = dict(
            "carries exactly {value, tag}. Not decided: equality of fingerprints for all structurally equal nodes; result equality "
            "with de-duplicated renderings."),
     note=_NOTE, technique="static analysis: sibling agreement of policy dispatch, depth-automaton abstraction of skipping loops, type-table rules on MIR / ADT facts")
+
+CLAIMED["C17"] = dict(
+    level=("Static decision (choke-point / who-may-call / local dataflow) that every byte of a rendered report passes a sanitiser: the "
+           "Display and render* paths reach the renderers only through fmt_error_rendered, which writes exclusively through the "
+           "TerminalSafe fmt::Write adapter (constructed nowhere else); the unsanitised renderers (7 default / 10 with features) are "
+           "called only by each other and by the adapter's inner Display; the adapter forwards a chunk unchanged only on the `clean` "
+           "edge of the predicate and otherwise forwards the sanitiser's output; predicate and sanitiser agree on C0 / DEL / C1 with "
+           "exactly LF and TAB exempt; the miette adapter's source, messages and labels derive only from sanitised, constant or "
+           "numeric text; the three window computations use the same two lines of context. Declared not applicable and not decided: "
+           "horizontal cropping arithmetic and marker placement; panics in renderers are C01's."),
+    note=_NOTE, technique="static analysis: call-graph choke-point (who-may-call) + backward value-provenance (taint) rules on MIR, sibling constant agreement")
 
 NOT_APPLICABLE = {("C%02d" % i): _NB for i in range(1, 21) if ("C%02d" % i) not in CLAIMED}
